@@ -279,18 +279,24 @@ theorem pu_all {c : Ctx} {Sb : SSet} {o : Name} {inc : Inc} {t : FT} (h : PU c S
   obtain ⟨s, hs, hin⟩ := h
   exact ⟨s, hs, inFlat_inc_mono (fun _ _ => rfl) hin⟩
 
-/-- an unaliased occurrence has its field name as response key -/
-theorem inFlat_key {S : Schema} {F : Name → Option FragmentDef} {o : Name} {inc : Inc} {V : List Name}
-    {ss : List Selection} {t : FT} (h : InFlat S F o inc V ss t) : t.aliased = false → t.key = t.name := by
+/-- an occurrence is in the aliased group iff its response key differs from its field name -/
+theorem inFlat_aliased {S : Schema} {F : Name → Option FragmentDef} {o : Name} {inc : Inc} {V : List Name}
+    {ss : List Selection} {t : FT} (h : InFlat S F o inc V ss t) : t.aliased = (t.key != t.name) := by
   induction h with
   | @field alias name p args ds sub rest h1 =>
-    intro ha
     cases alias with
-    | none => rfl
-    | some a => simp at ha
+    | none => simp [isAliased, keyOf]
+    | some a => obtain ⟨a1, a2⟩ := a; simp [isAliased, keyOf]
   | inline _ _ _ ih => exact ih
   | spread _ _ _ _ _ ih => exact ih
   | tail _ ih => exact ih
+
+/-- an unaliased occurrence has its field name as response key -/
+theorem inFlat_key {S : Schema} {F : Name → Option FragmentDef} {o : Name} {inc : Inc} {V : List Name}
+    {ss : List Selection} {t : FT} (h : InFlat S F o inc V ss t) : t.aliased = false → t.key = t.name := by
+  intro ha
+  rw [inFlat_aliased h] at ha
+  simpa using ha
 
 /-- a declared leaf type (scalar or enum) -/
 def isLeafType (S : Schema) (n : Name) : Bool :=
@@ -306,12 +312,11 @@ theorem isLeaf_not_composite {S : Schema} {n : Name} (h : isLeafType S n = true)
   | some k => cases k <;> simp_all
 
 /-- local coherence of what is collected for an object of type `o` (when nothing is skipped): occurrences with the same
-    response key agree on aliased / field name / having a sub-selection (consequence of FieldsInSetCanMerge, plus: no
-    alias coincides with an unaliased response key), and a field without sub-selection has a leaf type (Leaf Field
-    Selections) -/
+    response key agree on field name / having a sub-selection (consequence of FieldsInSetCanMerge), and a field without
+    sub-selection has a leaf type (Leaf Field Selections) -/
 def CohAt (c : Ctx) (Sb : SSet) (o : Name) : Prop :=
   (∀ t t', PU c Sb o allInc t → PU c Sb o allInc t' → t.key = t'.key →
-    t.aliased = t'.aliased ∧ t.name = t'.name ∧ t.sub.isSome = t'.sub.isSome) ∧
+    t.name = t'.name ∧ t.sub.isSome = t'.sub.isSome) ∧
   (∀ t fd, PU c Sb o allInc t → (t.name == "__typename") = false → c.S.field? o t.name = some fd → t.sub = none →
     isLeafType c.S fd.ty.unwrapped = true)
 
@@ -321,6 +326,16 @@ def Coh (c : Ctx) : Nat → SSet → Name → Prop
   | d + 1, Sb, n => ∀ o ∈ c.S.possibleTypes n, CohAt c Sb o ∧
       ∀ t fd, PU c Sb o allInc t → c.S.field? o t.name = some fd →
         Coh c d (SubSet c Sb o allInc t.key) fd.ty.unwrapped
+
+/-- occurrences with the same response key are in the same alias group (since dda35cd the group is determined by
+    response key and field name) -/
+theorem cohAt_full {c : Ctx} {Sb : SSet} {o : Name} (h : CohAt c Sb o) (t t' : FT) (ht : PU c Sb o allInc t)
+    (ht' : PU c Sb o allInc t') (hk : t.key = t'.key) :
+    t.aliased = t'.aliased ∧ t.name = t'.name ∧ t.sub.isSome = t'.sub.isSome := by
+  obtain ⟨hn, hs⟩ := h.1 t t' ht ht' hk
+  obtain ⟨_, _, h1⟩ := ht
+  obtain ⟨_, _, h2⟩ := ht'
+  exact ⟨by rw [inFlat_aliased h1, inFlat_aliased h2, hk, hn], hn, hs⟩
 
 theorem cohAt_congr {c : Ctx} {Sb Sb' : SSet} (he : PEquiv c Sb Sb') {o : Name} (h : CohAt c Sb o) : CohAt c Sb' o :=
   ⟨fun t t' ht ht' => h.1 t t' ((he _ _ _).2 ht) ((he _ _ _).2 ht'),
